@@ -5,6 +5,7 @@ import (
 	"encoding/json"
 	"fmt"
 	"testing"
+	"time"
 
 	"github.com/tychoish/fun"
 	"github.com/tychoish/fun/dt"
@@ -117,7 +118,14 @@ func (w *sworld) h(i int) *shandle {
 	return w.hs[i]
 }
 
+// apply runs one op under a watchdog: every step is sequential library
+// code, so a step that does not return (or allocates without bound) does
+// not terminate.
 func (w *sworld) apply(o Op) {
+	vkit.Watch(tStack, "C16:stack/"+o.Op+"/terminates", 30*time.Second, func() any { return append(append([]Op{}, w.log...), o) }, func() { w.applyStep(o) })
+}
+
+func (w *sworld) applyStep(o Op) {
 	w.cur, w.sub = o, ""
 	w.log = append(w.log, o)
 	defer func() {
